@@ -8,6 +8,7 @@ import (
 
 	"github.com/absolute8511/redcon"
 	"github.com/youzan/ZanRedisDB/common"
+	"github.com/youzan/ZanRedisDB/rockredis"
 )
 
 func parseScanArgs(args [][]byte) (cursor []byte, match string, count int, err error) {
@@ -40,6 +41,11 @@ func parseScanArgs(args [][]byte) (cursor []byte, match string, count int, err e
 			if count < 0 {
 				err = common.ErrInvalidArgs
 				return
+			}
+			if count > rockredis.MAX_BATCH_NUM {
+				// the store returns at most MAX_BATCH_NUM in one page, the check for
+				// the end of the scan (less than count returned) must use the same limit
+				count = rockredis.MAX_BATCH_NUM
 			}
 
 			i++
